@@ -172,6 +172,23 @@ static void mgc_watch(void *cookie, struct inotify_event *ev)
 			}
 			free(v_w[j]);
 			g_wfreed[j] = 1;
+		} else if (a == 3 && !g_in_freed) {
+			/* orderly shut-down: every watch first, then the (now empty) instance; free everything */
+			for (k = 0; k < NW; k++) {
+				if (!g_wfreed[k] && g_in_tree[k]) {
+					iv_inotify_watch_unregister(v_w[k]);
+					g_in_tree[k] = 0;
+				}
+			}
+			iv_inotify_unregister(v_in);
+			for (k = 0; k < NW; k++) {
+				if (!g_wfreed[k]) {
+					free(v_w[k]);
+					g_wfreed[k] = 1;
+				}
+			}
+			free(v_in);
+			g_in_freed = 1;
 		} else if (a == 2) {
 			/* unregister the whole instance and free everything */
 			iv_inotify_unregister(v_in);
